@@ -397,3 +397,284 @@ Proof.
       try discriminate; auto.
     rewrite !andb_true_iff. intros [U1 U2] [X1 X2]. f_equal; auto.
 Qed.
+
+(* ---------------------------------------------------------------- the property *)
+
+Lemma scalar_eqb_refl s : scalar_eqb s s = true.
+Proof. now destruct s. Qed.
+Lemma ty_eqb_refl : forall t, ty_eqb t t = true.
+Proof.
+  induction t as [s|sh s|n t IH|ts IH|fs IH] using ty_ind'; cbn [ty_eqb].
+  - apply scalar_eqb_refl.
+  - rewrite (list_eqb_refl Z.eqb Z.eqb_refl), scalar_eqb_refl. reflexivity.
+  - now rewrite Z.eqb_refl, IH.
+  - induction IH as [|t ts Ht _ IHl]; [reflexivity|]. now rewrite Ht, IHl.
+  - induction IH as [|f fs Hf _ IHl]; [reflexivity|]. now rewrite String.eqb_refl, Hf, IHl.
+Qed.
+
+Definition share2 (t : ty) (v r0 r1 : value) : value := pop fsub t (pop fsub t v r0) r1.
+
+Lemma shard_ok t v r0 r1 :
+  shape_ok t v = true -> shape_ok t r0 = true -> shape_ok t r1 = true ->
+  shard_to_shares t v r0 r1 = Ok [r0; r1; share2 t v r0 r1] /\ wt t (share2 t v r0 r1) = true.
+Proof.
+  intros Hv H0 H1. unfold shard_to_shares, share2.
+  destruct (gen_sub_rep t v r0 Hv H0) as [E1 W1]. rewrite E1. cbn [bind].
+  destruct (gen_sub_rep t _ r1 (wt_shape_ok _ _ W1) H1) as [E2 W2]. rewrite E2. cbn [bind]. auto.
+Qed.
+
+Lemma shape_ok_triple t a b c :
+  shape_ok (triple t) (VNode [a; b; c]) = shape_ok t a && (shape_ok t b && (shape_ok t c && true)).
+Proof. reflexivity. Qed.
+
+Lemma reveal_triple t v r0 r1 :
+  ty_ok t -> wt t v = true -> shape_ok t r0 = true -> shape_ok t r1 = true ->
+  secret_share_reveal (triple t, VNode [r0; r1; share2 t v r0 r1]) = Ok (t, v).
+Proof.
+  intros [sz Hsz] Hv H0 H1.
+  destruct (shard_ok t v r0 r1 (wt_shape_ok _ _ Hv) H0 H1) as [_ W2].
+  unfold secret_share_reveal. cbn [fst snd triple]. rewrite ty_eqb_refl. cbn [andb].
+  destruct (gen_add_rep t r0 r1 H0 H1) as [E1 W1]. rewrite E1. cbn [bind].
+  destruct (gen_add_rep t _ _ (wt_shape_ok _ _ W1) (wt_shape_ok _ _ W2)) as [E2 _].
+  rewrite E2. cbn [bind]. unfold share2. rewrite pop_reveal by assumption.
+  unfold typed_new. rewrite Hsz, (wt_shape_ok _ _ Hv). reflexivity.
+Qed.
+
+Theorem reveal_share : forall t v r0 r1,
+  ty_ok t -> wt t v = true -> shape_ok t r0 = true -> shape_ok t r1 = true ->
+  exists sh, secret_share (t, v) r0 r1 = Ok sh /\ fst sh = triple t /\
+             secret_share_reveal sh = Ok (t, v).
+Proof.
+  intros t v r0 r1 Ht Hv H0 H1.
+  destruct (shard_ok t v r0 r1 (wt_shape_ok _ _ Hv) H0 H1) as [E _].
+  unfold secret_share. cbn [fst snd]. rewrite E. cbn [bind].
+  eexists. split; [reflexivity|]. split; [reflexivity|]. now apply reveal_triple.
+Qed.
+
+(* ReplicatedShares: local-evaluation form reveals to the secret; its tuple form is the
+   TypedValue form, and from_tuple inverts to_tuple *)
+Theorem rs_reveal_share : forall t v r0 r1,
+  ty_ok t -> wt t v = true -> shape_ok t r0 = true -> shape_ok t r1 = true ->
+  exists rs, rs_secret_share_for_local_evaluation (t, v) r0 r1 = Ok rs /\
+             rs_reveal rs = Ok (t, v) /\
+             (ty_ok (triple t) ->
+              exists tup, rs_to_tuple rs = Ok tup /\ secret_share (t, v) r0 r1 = Ok tup /\
+                          rs_from_tuple tup = Ok rs).
+Proof.
+  intros t v r0 r1 Ht Hv H0 H1.
+  destruct (shard_ok t v r0 r1 (wt_shape_ok _ _ Hv) H0 H1) as [E W2].
+  unfold rs_secret_share_for_local_evaluation, secret_share. cbn [fst snd]. rewrite E. cbn [bind].
+  eexists. split; [reflexivity|]. split.
+  - unfold rs_reveal. cbn [fst snd].
+    destruct (gen_add_rep t r0 r1 H0 H1) as [E1 W1]. rewrite E1. cbn [bind].
+    destruct (gen_add_rep t _ _ (wt_shape_ok _ _ W1) (wt_shape_ok _ _ W2)) as [E2 _].
+    rewrite E2. cbn [bind]. unfold share2. now rewrite pop_reveal by assumption.
+  - intros [sz Hsz]. unfold rs_to_tuple, typed_new. cbn [fst snd]. rewrite Hsz.
+    rewrite shape_ok_triple, H0, H1, (wt_shape_ok _ _ W2). cbn [andb].
+    eexists. split; [reflexivity|]. split; [reflexivity|].
+    unfold rs_from_tuple. cbn [fst snd triple forallb]. rewrite ty_eqb_refl. reflexivity.
+Qed.
+
+Lemma shard_shape t v r0 r1 s :
+  shard_to_shares t v r0 r1 = Ok s -> exists s2, s = [r0; r1; s2].
+Proof.
+  unfold shard_to_shares. destruct (generalized_subtract v r0 t); try discriminate. cbn [bind].
+  destruct (generalized_subtract _ r1 t); try discriminate. cbn [bind].
+  intros H. injection H as <-. eauto.
+Qed.
+
+Theorem layout : forall tv r0 r1 g0 g1 g2 s,
+  shard_to_shares (fst tv) (snd tv) r0 r1 = Ok s ->
+  length s = 3%nat /\
+  exists ps, get_local_shares_for_each_party tv r0 r1 g0 g1 g2 = Ok ps /\ length ps = 3%nat /\
+    forall i p, nth_error ps i = Some p ->
+                fst p = triple (fst tv) /\ party_holds i p s [g0; g1; g2].
+Proof.
+  intros tv r0 r1 g0 g1 g2 s Hs. destruct (shard_shape _ _ _ _ _ Hs) as [s2 ->].
+  split; [reflexivity|].
+  unfold get_local_shares_for_each_party. rewrite Hs. cbn [bind party_slots map].
+  eexists. split; [reflexivity|]. split; [reflexivity|].
+  intros i p Hp. destruct i as [|[|[|i]]]; cbn in Hp; try (destruct i; discriminate);
+    injection Hp as <-; (split; [reflexivity|]); repeat split.
+Qed.
+
+(* same layout for the ReplicatedShares form and the same shares as the TypedValue form *)
+Theorem rs_layout : forall tv r0 r1 g0 g1 g2 ps,
+  get_local_shares_for_each_party tv r0 r1 g0 g1 g2 = Ok ps ->
+  rs_secret_share_for_parties tv r0 r1 g0 g1 g2
+  = Ok (map (fun p => (fst tv, match snd p with VNode l => l | VLeaf _ => [] end)) ps).
+Proof.
+  intros tv r0 r1 g0 g1 g2 ps. unfold get_local_shares_for_each_party, rs_secret_share_for_parties.
+  destruct (shard_to_shares _ _ r0 r1) as [s| | |]; try discriminate. cbn [bind].
+  destruct (party_slots s _) as [q| | |]; try discriminate. cbn [bind].
+  intros H. injection H as <-. rewrite map_map. reflexivity.
+Qed.
+
+Theorem any_two_reconstruct : forall t v r0 r1 g0 g1 g2,
+  ty_ok t -> wt t v = true -> shape_ok t r0 = true -> shape_ok t r1 = true ->
+  exists ps, get_local_shares_for_each_party (t, v) r0 r1 g0 g1 g2 = Ok ps /\
+    length ps = 3%nat /\
+    forall i j pi pj, i <> j -> nth_error ps i = Some pi -> nth_error ps j = Some pj ->
+      exists c, combine_two i pi pj = Ok c /\ secret_share_reveal c = Ok (t, v).
+Proof.
+  intros t v r0 r1 g0 g1 g2 Ht Hv H0 H1.
+  destruct (shard_ok t v r0 r1 (wt_shape_ok _ _ Hv) H0 H1) as [E _].
+  pose proof (reveal_triple t v r0 r1 Ht Hv H0 H1) as R.
+  unfold get_local_shares_for_each_party. cbn [fst snd]. rewrite E. cbn [bind party_slots map].
+  eexists. split; [reflexivity|]. split; [reflexivity|].
+  intros i j pi pj Hij Hi Hj.
+  destruct i as [|[|[|i]]]; cbn in Hi; try (destruct i; discriminate); injection Hi as <-;
+    (destruct j as [|[|[|j]]]; cbn in Hj; try (destruct j; discriminate); try congruence;
+     injection Hj as <-; eexists; (split; [reflexivity|]); exact R).
+Qed.
+
+Theorem two_shares_uniform : forall i t v,
+  (i < 3)%nat -> shape_ok t v = true ->
+  (forall r0 r1, wt t r0 = true -> wt t r1 = true ->
+     exists a b, view i t v r0 r1 = Ok (a, b) /\ wt t a = true /\ wt t b = true /\
+                 unview i t v a b = Ok (r0, r1)) /\
+  (forall a b, wt t a = true -> wt t b = true ->
+     exists r0 r1, unview i t v a b = Ok (r0, r1) /\ wt t r0 = true /\ wt t r1 = true /\
+                   view i t v r0 r1 = Ok (a, b)).
+Proof.
+  intros i t v Hi Hv. split.
+  - intros r0 r1 W0 W1.
+    pose proof (wt_shape_ok _ _ W0) as S0. pose proof (wt_shape_ok _ _ W1) as S1.
+    destruct (shard_ok t v r0 r1 Hv S0 S1) as [E W2]. pose proof (wt_shape_ok _ _ W2) as S2.
+    unfold view. rewrite E. cbn [bind].
+    destruct i as [|[|[|i]]]; [| | |lia]; cbn [nth_error Nat.add Nat.modulo Nat.divmod fst snd Nat.sub];
+      do 2 eexists; (split; [reflexivity|]); (split; [assumption|]); (split; [assumption|]).
+    + reflexivity.
+    + cbn [unview]. destruct (gen_sub_rep t v r1 Hv S1) as [F1 X1]. rewrite F1. cbn [bind].
+      destruct (gen_sub_rep t _ _ (wt_shape_ok _ _ X1) S2) as [F2 _]. rewrite F2. cbn [bind].
+      unfold share2. rewrite (pop_sub_comm t v r0 r1) by assumption.
+      rewrite pop_sub_sub by (auto using wt_shape_ok). reflexivity.
+    + cbn [unview]. destruct (gen_sub_rep t v r0 Hv S0) as [F1 X1]. rewrite F1. cbn [bind].
+      destruct (gen_sub_rep t _ _ (wt_shape_ok _ _ X1) S2) as [F2 _]. rewrite F2. cbn [bind].
+      unfold share2. rewrite pop_sub_sub by (auto using wt_shape_ok). reflexivity.
+  - intros a b Wa Wb.
+    pose proof (wt_shape_ok _ _ Wa) as Sa. pose proof (wt_shape_ok _ _ Wb) as Sb.
+    destruct i as [|[|[|i]]]; [| | |lia]; cbn [unview].
+    + do 2 eexists. split; [reflexivity|]. split; [assumption|]. split; [assumption|].
+      unfold view. destruct (shard_ok t v a b Hv Sa Sb) as [E _]. rewrite E. reflexivity.
+    + destruct (gen_sub_rep t v a Hv Sa) as [F1 X1]. rewrite F1. cbn [bind].
+      destruct (gen_sub_rep t _ b (wt_shape_ok _ _ X1) Sb) as [F2 X2]. rewrite F2. cbn [bind].
+      do 2 eexists. split; [reflexivity|]. split; [assumption|]. split; [assumption|].
+      unfold view. destruct (shard_ok t v _ a Hv (wt_shape_ok _ _ X2) Sa) as [E _]. rewrite E.
+      cbn [bind nth_error Nat.add Nat.modulo Nat.divmod fst snd Nat.sub].
+      unfold share2. rewrite (pop_sub_comm t v _ a) by (auto using wt_shape_ok).
+      rewrite pop_sub_sub by (auto using wt_shape_ok). reflexivity.
+    + destruct (gen_sub_rep t v b Hv Sb) as [F1 X1]. rewrite F1. cbn [bind].
+      destruct (gen_sub_rep t _ a (wt_shape_ok _ _ X1) Sa) as [F2 X2]. rewrite F2. cbn [bind].
+      do 2 eexists. split; [reflexivity|]. split; [assumption|]. split; [assumption|].
+      unfold view. destruct (shard_ok t v b _ Hv Sb (wt_shape_ok _ _ X2)) as [E _]. rewrite E.
+      cbn [bind nth_error Nat.add Nat.modulo Nat.divmod fst snd Nat.sub].
+      unfold share2. rewrite pop_sub_sub by (auto using wt_shape_ok). reflexivity.
+Qed.
+
+(* ---------------------------------------------------------------- share_vector, CLI split *)
+
+Lemma same_mod_ex M x y : 0 < M -> x mod M = y mod M -> exists k, x = y + k * M.
+Proof.
+  intros HM H. exists (x / M - y / M).
+  pose proof (Z.div_mod x M ltac:(lia)) as Hx. pose proof (Z.div_mod y M ltac:(lia)) as Hy.
+  rewrite H in Hx. set (qx := x / M) in *. set (qy := y / M) in *. set (r := y mod M) in *.
+  clearbody qx qy r. clear H. lia.
+Qed.
+Lemma recode_ex st x : exists k, recode st x = x + k * modulus st.
+Proof. apply same_mod_ex; [apply modulus_pos | apply recode_mod]. Qed.
+Lemma add_u128_ex st a b : exists k, add_u128 (get_modulus st) a b = a + b + k * modulus st.
+Proof. apply same_mod_ex; [apply modulus_pos | apply reduce_wrap_mod]. Qed.
+
+Lemma el_sv st d a b :
+  fadd st (fadd st (recode st a) (recode st b))
+       (recode st (sub_u128 (get_modulus st) (recode st d) (add_u128 (get_modulus st) a b)))
+  = recode st d.
+Proof.
+  rewrite recode_sub_u128. unfold fadd, fsub. rewrite recode_arg_l, recode_arg_r.
+  transitivity (recode st (recode st d)); [|apply recode_idem]. apply recode_cong.
+  destruct (recode_ex st a) as [k1 ->]. destruct (recode_ex st b) as [k2 ->].
+  destruct (add_u128_ex st a b) as [k3 ->].
+  replace (a + k1 * modulus st + (b + k2 * modulus st) + (recode st d - (a + b + k3 * modulus st)))
+    with (recode st d + (k1 + k2 - k3) * modulus st) by ring.
+  apply Z_mod_plus_full.
+Qed.
+
+Lemma l_sv st : forall data r0 r1,
+  length r0 = length data -> length r1 = length data ->
+  map2 (fadd st) (map2 (fadd st) (map (recode st) r0) (map (recode st) r1))
+       (map (recode st) (map2 (sub_u128 (get_modulus st)) (map (recode st) data)
+                              (map2 (add_u128 (get_modulus st)) r0 r1)))
+  = map (recode st) data.
+Proof.
+  induction data as [|d data IH]; intros [|a r0] [|b r1] H0 H1; try discriminate; [reflexivity|].
+  cbn [map]. rewrite !map2_cons. cbn [map]. rewrite map2_cons. f_equal.
+  - apply el_sv.
+  - apply IH; auto.
+Qed.
+
+Lemma bit_pad_nonbit st n : st <> Bit -> bit_pad st n = [].
+Proof. destruct st; try reflexivity. congruence. Qed.
+
+Theorem share_vector_reveal : forall st data r0 r1 g0 g1 g2,
+  data <> [] -> (st = Bit -> length data = 1%nat) ->
+  length r0 = length data -> length r1 = length data ->
+  exists s0 s1 s2,
+    share_vector st data r0 r1 g0 g1 g2
+    = Ok [VNode [VLeaf s0; VLeaf s1; VLeaf g2]; VNode [VLeaf g0; VLeaf s1; VLeaf s2];
+          VNode [VLeaf s0; VLeaf g1; VLeaf s2]] /\
+    (let* a := leaf_add st s0 s1 in leaf_add st a s2) = Ok (recode_list st data).
+Proof.
+  intros st data r0 r1 g0 g1 g2 Hne Hbit H0 H1.
+  assert (Hn : (length data =? 0)%nat = false).
+  { destruct data; [congruence|reflexivity]. }
+  unfold share_vector. rewrite Hn.
+  assert (Hb : scalar_eqb st Bit && negb (length data =? 1)%nat = false).
+  { destruct (scalar_eqb st Bit) eqn:E; [|reflexivity].
+    apply scalar_eqb_eq in E. rewrite (Hbit E). reflexivity. }
+  rewrite Hb. unfold add_vectors_u128, subtract_vectors_u128.
+  replace (length r0 =? length r1)%nat with true by (symmetry; apply Nat.eqb_eq; lia).
+  cbn [bind]. rewrite map_length, map2_length by lia.
+  replace (length data =? length r0)%nat with true by (symmetry; apply Nat.eqb_eq; lia).
+  cbn [bind map party_slots]. do 3 eexists. split; [reflexivity|].
+  destruct (scalar_eqb st Bit) eqn:E.
+  - apply scalar_eqb_eq in E. subst st. specialize (Hbit eq_refl).
+    destruct data as [|d [|]]; try discriminate. destruct r0 as [|a [|]]; try discriminate.
+    destruct r1 as [|b [|]]; try discriminate.
+    assert (Hp : forall x, recode_list Bit [x] = [recode Bit x; 0; 0; 0; 0; 0; 0; 0]) by reflexivity.
+    assert (Hq : forall x0 x1 x2 x3 x4 x5 x6 x7 : Z,
+               recode_list Bit [x0; x1; x2; x3; x4; x5; x6; x7]
+               = map (recode Bit) [x0; x1; x2; x3; x4; x5; x6; x7]).
+    { intros. unfold recode_list. cbn [length]. change (bit_pad Bit 8) with (@nil Z).
+      apply app_nil_r. }
+    cbn [map2 map combine fst snd]. rewrite !Hp.
+    unfold leaf_add, add_vectors_u128. cbn [length Nat.eqb bind map2 map combine fst snd].
+    rewrite !Hq. cbn [length Nat.eqb bind map2 map combine fst snd]. rewrite !Hq.
+    cbn [map]. rewrite !recode_add_u128.
+    pose proof (el_sv Bit d a b) as EL. rewrite EL.
+    do 2 f_equal.
+  - assert (Hst : st <> Bit). { intros ->. discriminate. }
+    unfold recode_list at 1 2 3. rewrite !bit_pad_nonbit, !app_nil_r by assumption.
+    rewrite (leaf_add_rep st _ _ (length data)); rewrite ?map_length; auto using bit_pad_nonbit.
+    cbn [bind].
+    rewrite (leaf_add_rep st _ _ (length data));
+      rewrite ?map_length, ?map2_length; rewrite ?map_length, ?map2_length;
+      auto using bit_pad_nonbit; try lia.
+    unfold recode_list. rewrite bit_pad_nonbit, app_nil_r by assumption. f_equal.
+    apply l_sv; assumption.
+Qed.
+
+Theorem split_input_spec : forall tv zero r0 r1 g0 g1 g2,
+  split_input IOShared tv zero r0 r1 g0 g1 g2
+  = get_local_shares_for_each_party tv r0 r1 g0 g1 g2 /\
+  split_input IOPublic tv zero r0 r1 g0 g1 g2 = Ok [tv; tv; tv] /\
+  forall p z, typed_new (fst tv) zero = Ok z ->
+    exists l, split_input (IOParty p) tv zero r0 r1 g0 g1 g2 = Ok l /\ length l = 3%nat /\
+      forall j, 0 <= j < 3 ->
+        nth_error l (Z.to_nat j) = Some (if j =? p then tv else z).
+Proof.
+  intros. split; [reflexivity|]. split; [reflexivity|]. intros p z Hz.
+  cbn [split_input]. rewrite Hz. cbn [bind map].
+  eexists. split; [reflexivity|]. split; [reflexivity|].
+  intros j Hj. assert (j = 0 \/ j = 1 \/ j = 2) as [-> | [-> | ->]] by lia; reflexivity.
+Qed.
